@@ -359,14 +359,19 @@ def conds(tier):
         out.append(Cond("alazy", mk_alazy(4), alazy_params(4), pin=3, builds=("C",), budget=300,
                         family="alazy_constant: call/dirty histories of length 4 under a symbolic clock", encodes=ENC))
     else:
-        out.append(Cond("alru", mk_alru(4), alru_params(4, 1, 1, 0, 3, False, 2, 1), pin=5, builds=("C",), budget=3000,
-                        family="alru_cache on a function: 4 calls", encodes=ENC))
-        out.append(Cond("alru3", mk_alru(3), alru_params(3, 2, 2, 1, 5, True, 2, 1), pin=5, builds=("C",), budget=3000,
-                        family="alru_cache: 3 calls, args in {0,1,2}^2, keyword-only arg, all spellings, raising", encodes=ENC))
-        out.append(Cond("alru_method", mk_alru(3, method=True), alru_params(3, 1, 1, 1, 5, True, 2, 0), pin=4,
-                        builds=("C",), budget=3000, family="alru_cache on an instance method", encodes=ENC))
-        out.append(Cond("acpi", mk_acpi(4), acpi_params(4, 1, 3, True), pin=3, builds=("C",), budget=3000,
-                        family="acached_per_instance: 4 calls", encodes=ENC))
-        out.append(Cond("alazy", mk_alazy(6), alazy_params(6), pin=4, builds=("C",), budget=1800,
+        out.append(Cond("alru", mk_alru(4), alru_params(4, 1, 1, 0, 3, False, 1, 1), pin=5, builds=("C",), budget=3000,
+                        family="alru_cache on a function: 4 calls", encodes=ENC, extra_pre=["not blocks"],
+                        shard_filter=lambda maxsize, keyfn, blocks, a0, b0: not blocks))
+        out.append(Cond("alru3", mk_alru(3), alru_params(3, 2, 1, 1, 2, False, 1, 0), pin=5, builds=("C",), budget=3000,
+                        family="alru_cache: 3 calls, a in {0,1,2}, keyword-only argument, 3 spellings", encodes=ENC))
+        out.append(Cond("alru_raise", mk_alru(3), alru_params(3, 1, 0, 1, 1, True, 1, 0), pin=4, builds=("C", "P"),
+                        budget=1200, family="alru_cache: raising bodies are not cached", encodes=ENC))
+        out.append(Cond("alru_method", mk_alru(3, method=True), alru_params(3, 1, 1, 0, 2, True, 1, 0), pin=4,
+                        builds=("C",), budget=3000, family="alru_cache on an instance method: 3 calls", encodes=ENC))
+        out.append(Cond("acpi", mk_acpi(4), acpi_params(4, 0, 1, True), pin=4, builds=("C",), budget=3000,
+                        family="acached_per_instance: 4 calls, two instances", encodes=ENC,
+                        extra_pre=["not blocks and dropat <= 2"],
+                        shard_filter=lambda blocks, dropat, inst0, a0: (not blocks) and dropat <= 2))
+        out.append(Cond("alazy", mk_alazy(6), alazy_params(6), pin=4, builds=("C", "P"), budget=1800,
                         family="alazy_constant: histories of length 6", encodes=ENC))
     return out
